@@ -49,9 +49,14 @@ SEEDS = {
  'C18-D': ('tests', './tests', 'TestC18CloseLeavesSelectedState'), 'C18-E': ('connector', './connector', 'TestC18DummyAuthorizeIsExact'),
  'C14-C': ('tests', './tests', 'TestC14CreateMakesEveryMissingSuperior'), 'C20-E': ('tests', './tests', 'TestC20RemoteRefusalKeepsBytesInRecovery'),
  'C17-D': ('tests', './tests', 'TestC17ConnectorMessageCreatedOverLimitHasNoPartialEffect'),
+ 'C10-G': ('imap/command', './imap/command', 'TestDemoA_'), 'C10-H': ('imap/command', './imap/command', 'TestDemoB_'),
+ 'C06-D': ('tests', './tests', 'TestDemoC_BatchWithRedelivered'), 'C08-E': ('internal/db_impl/sqlite3', './internal/db_impl/sqlite3', 'TestDemoD_AddFlagToMessagesBeyondOneBatch'),
+ 'C08-F': ('internal/db_impl/sqlite3', './internal/db_impl/sqlite3', 'TestDemoE_MailboxTranslateRemoteIDsSkipsUnknownIDs'),
+ 'C01-F': ('tests', './tests', 'TestMutA_'), 'C01-G': ('tests', './tests', 'TestMutB_'), 'C05-F': ('tests', './tests', 'TestMutC_'),
+ 'C05-G': ('tests', './tests', 'TestMutD_'), 'C16-E': ('rfcparser', './rfcparser', 'TestMutE_ParseNumberBoundary'),
 }
 # demo files that belong to another package than the main demo (skipped in the confirmation run)
-SKIP = {'C18-E': ['zz_c18_login_exact_test.go'], 'C11-D': ['zz_demo_c11a_wire_test.go'], 'C01-D': ['demo_merge_expunge_wire_test.go'], 'C01-E': ['demo_silent_store_wire_test.go'], 'C13-E': ['demo_c_fetch_empty_part_test.go'], 'C17-C': ['demo_d_message_limit_test.go'], 'C01-A': ['c01_uid_range_seq_test.go'], 'C16-A': ['zz_demo_a_wire_test.go'], 'C16-B': ['zz_demo_b_wire_test.go'], 'C05-A': ['c05_mutA_readd_demo_test.go']}
+SKIP = {'C10-H': ['demo_b_id_wire_test.go'], 'C08-E': ['demo_d_store_wire_test.go'], 'C08-F': ['demo_e_single_unknown_mailbox_wire_test.go'], 'C16-E': ['mut_e_test.go'], 'C18-E': ['zz_c18_login_exact_test.go'], 'C11-D': ['zz_demo_c11a_wire_test.go'], 'C01-D': ['demo_merge_expunge_wire_test.go'], 'C01-E': ['demo_silent_store_wire_test.go'], 'C13-E': ['demo_c_fetch_empty_part_test.go'], 'C17-C': ['demo_d_message_limit_test.go'], 'C01-A': ['c01_uid_range_seq_test.go'], 'C16-A': ['zz_demo_a_wire_test.go'], 'C16-B': ['zz_demo_b_wire_test.go'], 'C05-A': ['c05_mutA_readd_demo_test.go']}
 
 def sh(cmd, timeout=900, cwd=WT):
     try:
